@@ -4,11 +4,14 @@
             "order":k, "orient": null | [[id, 0|1|…],…]}
   response {"out":"ok","wf":bool,"shape":[r,c],"rows":[ids],"cols":[ids],"M":[[…]]}   (boundary_matrix)
            {"out":"ok","wf":bool,"shape":[n,n],"keys":[ids],"M":[[…]]}               (hodge_laplacian)
+             for order 0 additionally "ncomp": `nComponents s` (XgiModel/C13/Components.lean), the number of connected
+             components of the 1-skeleton, which `ker_L0_finrank` proves to be dim ker L_0
            {"out":"err"}         a lookup of the Python loops fails (the call raises)
            {"out":"unmodelled"}  labels that are not int/str, orientation dict not covering every simplex of order ≥ 1
 -/
 import XgiModel.Proto
 import XgiModel.C13.Hodge
+import XgiModel.C13.Components
 open Lean Xgi.Proto
 
 namespace Xgi.C13.Drive
@@ -64,7 +67,8 @@ def handle (_ : Unit) (j : Json) : Unit × Json :=
           ++ matJson (boundary s k o))
       else if f = "hodge_laplacian" then
         if !hodgeDefined s k o then Json.mkObj [("out", "err")] else
-        Json.mkObj ([ok, wf, ("keys", idsToJson (upIds s k))] ++ matJson (hodge s k o))
+        Json.mkObj ([ok, wf, ("keys", idsToJson (upIds s k))] ++ matJson (hodge s k o)
+          ++ (if k = 0 then [("ncomp", natJson (nComponents s))] else []))
       else badOp
   | _, _, _ => badOp)
 
